@@ -37,6 +37,13 @@ func (v *recValve) txWait(n int) {
 // checkEnvelope: for every pair of events the bytes let through in (t_i, t_j] stay within
 // 1.01*rate*(t_j-t_i) + rate; and from the start within 1.01*rate*t_j + rate.
 func checkEnvelope(dir string, evs []rateEv, rate int64) {
+	// a single message is atomic: the largest one is granted on top of the burst
+	maxMsg := int64(0)
+	for _, e := range evs {
+		if int64(e.n) > rate && int64(e.n) > maxMsg {
+			maxMsg = int64(e.n)
+		}
+	}
 	for i := -1; i < len(evs); i++ {
 		var t0 int64
 		if i >= 0 {
@@ -46,7 +53,7 @@ func checkEnvelope(dir string, evs []rateEv, rate int64) {
 		for j := i + 1; j < len(evs); j++ {
 			sum += int64(evs[j].n)
 			dt := float64(evs[j].at-t0) / 1e9
-			limit := 1.01*float64(rate)*dt + float64(rate) + 1
+			limit := 1.01*float64(rate)*dt + float64(rate) + float64(maxMsg) + 1
 			if float64(sum) > limit {
 				vrt.Fail("rate-envelope", "%s: %d bytes passed the limiter in an interval of %.4fs (events %d..%d), limit %.0f at rate %d B/s", dir, sum, dt, i+1, j, limit, rate)
 			}
@@ -151,6 +158,9 @@ func init() {
 				}
 				// work conservation: N bytes are through by (N-burst)/(0.99 rate) plus one message time
 				maxT := (float64(wire)-float64(rate))/(0.99*float64(rate)) + float64(size+300)/float64(rate) + 0.02
+				if size > int(rate) {
+					maxT += float64(size+300) / float64(rate) // the last oversized message also waits for its own debt
+				}
 				if maxT < 0.02 {
 					maxT = 0.02
 				}
@@ -181,7 +191,13 @@ func init() {
 				vx.Job{Scenario: "mux.rate", Params: vx.P("dir", dir, "senders", "2", "count", "3", "size", "16000", "rate", "1000000", "delay", "1"), Bound: b(2, 3), Weight: 7},
 			)
 		}
+		for _, dir := range []string{"tx", "rx"} {
+			// messages larger than one second's allowance: the long-run rate must still hold
+			jobs = append(jobs, vx.Job{Scenario: "mux.rate", Params: vx.P("dir", dir, "senders", "1", "count", "4", "size", "3000", "rate", "1000"), Bound: b(1, 2), Weight: 5})
+			jobs = append(jobs, vx.Job{Scenario: "mux.rate", Params: vx.P("dir", dir, "senders", "2", "count", "2", "size", "16000", "rate", "4000", "delay", "1"), Bound: b(1, 2), Weight: 6})
+		}
 		jobs = append(jobs, vx.Job{Scenario: "panel.valve", Weight: 1})
+		jobs = append(jobs, vx.Job{Scenario: "panel.valve.sched", Bound: b(2, 3), Weight: 4})
 		for i := range jobs {
 			jobs[i].BudgetS = b(100, 900)
 		}
